@@ -1680,7 +1680,7 @@ yyreduce:
 #line 425 "re_grammar.y"
       {
         (yyval.re_node) = yr_re_node_create(RE_NODE_CLASS);
-
+        if ((yyval.re_node) == NULL) yr_free((yyvsp[0].re_class));
         fail_if((yyval.re_node) == NULL, ERROR_INSUFFICIENT_MEMORY);
 
         (yyval.re_node)->re_class = (yyvsp[0].re_class);
